@@ -73,7 +73,9 @@ def _replay_inproc(fn, site, inputs):
         try:
             fn(cc)
         except CheckFailed as e:
-            return e.site == site, f"check {e.site} failed: {e.detail}"
+            # any failing check of the property on these concrete inputs is a reproduced violation
+            # (the concrete run may trip an earlier assertion than the symbolic path did)
+            return True, f"check {e.site} failed: {e.detail}"
         except PathAbort:
             return False, "aborted"
         except Exception as e:
